@@ -86,6 +86,16 @@ def showReplyPkt : Packet → String
 
 def abc : Bytes := [97, 98, 99]
 
+/-- `handleDatagram` for the scenario simulations. A block size no datagram can carry (possible only when the range guard regenerated
+from the source is gone or unrecognised) is cut to 100000 bytes *for the simulated conversation only*, so that the driver answers in
+bounded time; the reply (`r1`, which shows the value the server acknowledges) is untouched, and the harness cannot send such a block
+either, so the two sides then differ visibly instead of the model hanging. -/
+def hd (cfg : SrvCfg) (fs : Fs) (dgram : Bytes) : Reaction :=
+  let r := handleDatagram cfg fs Gen.defaultBlockSize dgram
+  match r.worker with
+  | some w => if w.opts.blockSize > 100000 then { r with worker := some { w with opts := { w.opts with blockSize := 100000 } } } else r
+  | none => r
+
 def reqLine (toks : List String) : String :=
   match toks with
   | ["req", rootH, flags, fsS, dg] =>
@@ -96,7 +106,7 @@ def reqLine (toks : List String) : String :=
       match parseFs root fl fsS with
       | none => "bad-op"
       | some fs =>
-        let r := handleDatagram cfg fs Gen.defaultBlockSize dgram
+        let r := hd cfg fs dgram
         let r1 := match r.reply with
           | none => "r1=- none"
           | some (src, p) => s!"r1={srcName cfg.singlePort src} {showReplyPkt p}"
@@ -156,7 +166,7 @@ def abortLine (toks0 : List String) : String :=
       match parseFs root fl fsS with
       | none => "bad-op"
       | some fs =>
-        let r := handleDatagram cfg fs Gen.defaultBlockSize dgram
+        let r := hd cfg fs dgram
         let r1 := match r.reply with
           | none => "r1=- none"
           | some (src, p) => s!"r1={srcName cfg.singlePort src} {showReplyPkt p}"
@@ -191,7 +201,7 @@ def timingLine (toks0 : List String) : String :=
       match parseFs root fl fsS with
       | none => "bad-op"
       | some fs =>
-        let r := handleDatagram cfg fs Gen.defaultBlockSize dgram
+        let r := hd cfg fs dgram
         match r.worker, r.reply with
         | some w, some (_, .oack _) =>
           match fs.stat w.path with
@@ -218,13 +228,70 @@ def errstopLine (toks : List String) : String :=
       match parseFs root fl fsS with
       | none => "bad-op"
       | some fs =>
-        let r := handleDatagram cfg fs Gen.defaultBlockSize dgram
+        let r := hd cfg fs dgram
         match r.worker with
         | some w =>
           match w.kind, fs.stat w.path with
           | .send, some (.file _) => "first=data after=0"
           | _, _ => "first=other"
         | none => "first=other"
+    | _, _ => "bad-op"
+  | _ => "bad-op"
+
+/-- an upload whose client falls silent: the receiver gives up after `MAX_RETRIES` failed attempts of one acknowledged time-out
+each (`c07_receiver_bounded_silence`), and clean-on-error removes the partial file then -/
+def wrqsilentLine (toks : List String) : String :=
+  match toks with
+  | ["wrqsilent", rootH, flags, fsS, dg, _nb] =>
+    match bytesOfHex rootH, bytesOfHex dg with
+    | some root, some dgram =>
+      let fl := parseFlags flags
+      let cfg := mkCfg root fl
+      match parseFs root fl fsS with
+      | none => "bad-op"
+      | some fs =>
+        let r := hd cfg fs dgram
+        match r.worker with
+        | some w =>
+          match w.kind with
+          | .receive =>
+            if fs.canCreate w.path then
+              (if cfg.cleanOnError then s!"first=ok gone_after={Gen.maxRetries * w.opts.timeoutS}" else "first=ok gone_after=never")
+            else "first=other"
+          | _ => "first=other"
+        | none => "first=other"
+    | _, _ => "bad-op"
+  | _ => "bad-op"
+
+/-- the `staleretx` scenario (harness/src/server.rs): DATA 2 lost, a stale ACK 1 0.8 s later, the first retransmission lost, the
+second one answered, lock-step to the end. The sender model runs on the event list the scenario induces (a failed `recv` lasts the whole
+socket time-out, which the stale ACK restarted). -/
+def staleretxLine (toks : List String) : String :=
+  match toks with
+  | ["staleretx", rootH, flags, fsS, dg] =>
+    match bytesOfHex rootH, bytesOfHex dg with
+    | some root, some dgram =>
+      let fl := parseFlags flags
+      let cfg := mkCfg root fl
+      match parseFs root fl fsS with
+      | none => "bad-op"
+      | some fs =>
+        let r := hd cfg fs dgram
+        match r.worker, r.reply with
+        | some w, some (_, .oack _) =>
+          match fs.stat w.path with
+          | some (.file content) =>
+            let sc : SCfg := { b := w.opts.blockSize, w := w.opts.windowSize, timeout := w.opts.timeoutS * 1000, rep := 1 }
+            let n := content.length / sc.b + 1
+            let pre : List (SEv × Nat) := [(.ack 0, 0), (.ack 1, 0), (.ack 1, 800), (.fail, sc.timeout), (.fail, sc.timeout)]
+            let rest : List (SEv × Nat) := (List.range (n - 1)).map fun i => (.ack (i + 2), 0)
+            let run := sRun sc content true (pre ++ rest)
+            let groups := (run.1.drop 4).take 2       -- what the two failed attempts produce
+            let retx := (groups.filter fun g => g.any fun p => match p with | .data 2 _ => true | _ => false).length
+            let done := match run.2.status with | .ok => "ok" | _ => "no"
+            s!"first=oack retx={retx} done={done} got={content.length}:{fnv content}"
+          | _ => "first=other"
+        | _, _ => "first=other"
     | _, _ => "bad-op"
   | _ => "bad-op"
 
@@ -253,42 +320,49 @@ def multiLine (toks : List String) : String :=
       | none => "bad-op"
       | some fs0 =>
         let cls := if cfg.singlePort then "L" else "T"
-        let one (acc : Option (Fs × List String)) (spec : String) : Option (Fs × List String) := do
-          let (fs, outs) ← acc
-          match (match spec.splitOn ":" with | "D" :: rest => "d" :: rest | other => other) with   -- `D` = `d` with the request sent twice
+        -- the state threaded through the clients: `rd` is what reads see (the initial tree, changed only by `m:` entries, which replace a
+        -- file behind the server's back; such scenarios are scheduled strictly in list order), `fs` is the final tree (with the uploads)
+        let one (acc : Option (Fs × Fs × List String)) (spec : String) : Option (Fs × Fs × List String) := do
+          let (rd, fs, outs) ← acc
+          match (match spec.splitOn ":" with | "D" :: rest => "d" :: rest | "U" :: rest => "u" :: rest | other => other) with
           | ["d", name, b, w] =>
             let os : List TransferOption := [{ option := .blksize, value := (← b.toNat?) }, { option := .windowsize, value := (← w.toNat?) }]
-            let r := handleRrq cfg fs0 (bytesOfString name) os
+            let r := handleRrq cfg rd (bytesOfString name) os
             match r.worker, r.reply with
             | some wk, _ =>
-              match fs0.stat wk.path with
-              | some (.file c) => pure (fs, outs ++ [s!"ok:{c.length}:{fnv c}:{cls}"])
-              | _ => pure (fs, outs ++ ["noreply"])
-            | none, some (_, .error c _) => pure (fs, outs ++ [s!"err:{errIndex c}:L"])
-            | none, _ => pure (fs, outs ++ ["noreply"])
+              match rd.stat wk.path with
+              | some (.file c) => pure (rd, fs, outs ++ [s!"ok:{c.length}:{fnv c}:{cls}:t{c.length}"])
+              | _ => pure (rd, fs, outs ++ ["noreply"])
+            | none, some (_, .error c _) => pure (rd, fs, outs ++ [s!"err:{errIndex c}:L"])
+            | none, _ => pure (rd, fs, outs ++ ["noreply"])
           | "u" :: name :: b :: w :: rest =>
             let content ← parseContent (":".intercalate rest)
             let os : List TransferOption := [{ option := .blksize, value := (← b.toNat?) }, { option := .windowsize, value := (← w.toNat?) }]
-            let r := handleWrq cfg fs0 (bytesOfString name) os
+            let r := handleWrq cfg rd (bytesOfString name) os
             match r.worker, r.reply with
             | some wk, _ =>
-              if cfg.readOnly then pure (fs, outs ++ ["err:2:L"])
-              else if fs0.canCreate wk.path then pure (fs.set (components wk.path) (.file content), outs ++ [s!"ok:{cls}"])
-              else pure (fs, outs ++ ["noreply"])
-            | none, some (_, .error c _) => pure (fs, outs ++ [s!"err:{errIndex c}:L"])
-            | none, _ => pure (fs, outs ++ ["noreply"])
-          | ["i", _] => pure (fs, outs ++ ["E4L"])
+              if cfg.readOnly then pure (rd, fs, outs ++ ["err:2:L"])
+              else if rd.canCreate wk.path then pure (rd, fs.set (components wk.path) (.file content), outs ++ [s!"ok:{cls}"])
+              else pure (rd, fs, outs ++ ["noreply"])
+            | none, some (_, .error c _) => pure (rd, fs, outs ++ [s!"err:{errIndex c}:L"])
+            | none, _ => pure (rd, fs, outs ++ ["noreply"])
+          | ["i", _] => pure (rd, fs, outs ++ ["E4L"])
           -- a stranger sending datagrams to another client's transfer endpoint: by `c12_frame` it changes nobody's outcome
-          | ["x", _, _] => pure (fs, outs ++ ["x"])
+          | ["x", _, _] => pure (rd, fs, outs ++ ["x"])
+          -- `m:name:content`: the served file is replaced on disk
+          | "m" :: name :: rest =>
+            let content ← parseContent (":".intercalate rest)
+            let p := components (joinPath cfg.sendDir (bytesOfString name))
+            pure (rd.set p (.file content), fs.set p (.file content), outs ++ ["m"])
           | _ => none
         -- `a+b`: transfer a, then transfer b from the same endpoint: each yields its solo outcome
-        let step (acc : Option (Fs × List String)) (spec : String) : Option (Fs × List String) := do
-          let (fs, outs) ← acc
-          let (fs', subs) ← (spec.splitOn "+").foldl one (some (fs, []))
-          pure (fs', outs ++ ["|".intercalate subs])
-        match clients.foldl step (some (fs0, [])) with
+        let step (acc : Option (Fs × Fs × List String)) (spec : String) : Option (Fs × Fs × List String) := do
+          let (rd, fs, outs) ← acc
+          let (rd', fs', subs) ← (spec.splitOn "+").foldl one (some (rd, fs, []))
+          pure (rd', fs', outs ++ ["|".intercalate subs])
+        match clients.foldl step (some (fs0, fs0, [])) with
         | none => "bad-op"
-        | some (fs, outs) =>
+        | some (_, fs, outs) =>
           let named := (List.range outs.length).zip outs |>.map fun (i, o) => s!"c{i}={o}"
           " ".intercalate named ++ " ; fs=" ++ showFs root fs
   | _ => "bad-op"
